@@ -172,7 +172,10 @@ def run(ctx: Ctx, tier: str) -> Result:
             res.fail(Finding("C15.ONCE", worker.qname, regs[0] if regs else "<CallbackContext(...)>", worker.loc(), "new deferred work is registered before the pending work of this event is examined: it can be completed by the event that opened it"))
         if len(regs) == 1:
             rb = t.bind_args(cc.lookup("__init__"), regs[0])
-            exp = {k: ctx.expand.expand(v, regf) for k, v in rb.items()}
+            # the constructor's parameters by position (event, file, line, function, callbacks), whatever they are called
+            cip = cc.lookup("__init__").params
+            canon_ = dict(zip(cip[1:6], ("event", "filename", "line", "name", "callbacks")))
+            exp = {canon_.get(k, k): ctx.expand.expand(v, regf) for k, v in rb.items()}
             if regf is not worker:
                 # translate the helper's parameters back to the worker's arguments
                 hb = t.bind_args(regf, reg_anchor)
@@ -386,6 +389,13 @@ def run(ctx: Ctx, tier: str) -> Result:
         # outermost pending context when the nesting is deeper than its bound)
         prov = cbs_field.args[0] if cbs_field.args else next((k.value for k in cbs_field.keywords), None)
         made = prov.body if isinstance(prov, ast.Lambda) else prov
+        if isinstance(made, (ast.Name, ast.Attribute)) and norm(made) not in ("deque", "list", "collections.deque"):
+            # a named provider of the repository: what its single return makes
+            for ty in t.type_of(made, worker.cls.lookup("__init__")):
+                if ty[0] in ("func", "bound") and ty[1] in p.functions:
+                    rets_ = [r for r in t.nodes_in(p.functions[ty[1]], ast.Return) if r.value is not None]
+                    if len(rets_) == 1:
+                        made = rets_[0].value
         unbounded = (isinstance(made, ast.Call) and norm(made.func) in ("deque", "collections.deque", "list") and not made.keywords and len(made.args) <= 1) or \
             (isinstance(made, ast.List) and not made.elts) or (isinstance(made, ast.Name) and made.id in ("deque", "list"))
         if unbounded:
